@@ -11,6 +11,29 @@
 (***************************************************************************)
 EXTENDS C03_Operators
 
+(***************************************************************************)
+(* The NAMED DEVIATIONS of this parser from Python's expression grammar     *)
+(* (the open findings C07-F1..F14).  Every operator below takes a set fx of *)
+(* deviations to REPAIR: fx = {} is the parser as the code has it, fx =      *)
+(* Deviations is what the code would be with all of them repaired.  The     *)
+(* judge attributes a failing string to the listed findings only if the     *)
+(* real parser returned exactly what the unrepaired model predicts AND the   *)
+(* fully repaired model reads the string as Python does; the deviations     *)
+(* whose repair alone changes the reading of that string are named.         *)
+(*   "bitcmp"    comparisons bind tighter than | ^ & (as in C)              *)
+(*   "orxor"     | and ^ share one precedence                                *)
+(*   "mulrhs"    the right operand of * is parsed at additive precedence    *)
+(*   "unarypow"  - + ~ bind tighter than ** on their right                  *)
+(*   "notprec"   'not' is a tightly binding prefix operator                 *)
+(*   "negtuple"  minus is applied to the parsed operand at parse time       *)
+(*               (Python's own -x), which fails for a tuple                 *)
+(*   "chain"     a < b < c is read as the nested comparison (a < b) < c      *)
+(*               (repaired: a < b and b < c; built through a Chain node that *)
+(*               only an unparenthesised comparison leaves open)            *)
+(***************************************************************************)
+Deviations == {"bitcmp", "orxor", "mulrhs", "unarypow", "notprec", "negtuple", "chain"}
+DevSeq == << "bitcmp", "orxor", "mulrhs", "unarypow", "notprec", "negtuple", "chain" >>
+
 P_COMMA == 5     P_SLICE == 10    P_IF == 75       P_LOR == 80      P_LAND == 90
 P_BOR == 120     P_BXOR == 120    P_BAND == 130    P_CMP == 200     P_SHIFT == 205
 P_PLUS == 210    P_TIMES == 220   P_POWER == 230   P_UNARY == 240   P_CALL == 250
@@ -41,7 +64,12 @@ ParseError == Fail("ParseError")
 \* finalized by a closing delimiter
 IsOpenTup(e) == e.t = "Tup"
 Finalize(e) == IF e.t = "Tup" THEN [t |-> "TupF", c |-> e.c] ELSE e
-Unfinalize(e) == IF e.t = "TupF" THEN [t |-> "Tup", c |-> e.c] ELSE e
+\* a comparison chain under construction (only with "chain" repaired): operands and operators
+ChainDone(e) ==
+    IF e.t # "Chain" THEN e
+    ELSE IF Len(e.ops) = 1 THEN Cmp(e.c[1], e.ops[1], e.c[2])
+    ELSE N("LogAnd", [i \in 1..Len(e.ops) |-> Cmp(e.c[i], e.ops[i], e.c[i + 1])])
+Unfinalize(e) == IF e.t = "TupF" THEN [t |-> "Tup", c |-> e.c] ELSE ChainDone(e)
 ToList(e) == IF e.t = "Tup" THEN [t |-> "ListF", c |-> e.c] ELSE [t |-> "ListF", c |-> << e >>]
 
 \* -operand through Python's unary minus: tuples and lists have none
@@ -50,66 +78,76 @@ PyNeg(e) == IF e.t \in {"Tup", "TupF", "ListF", "None"} THEN Raise("TypeError") 
 JoinToSlice(left, right) ==
     IF right.t = "Slice" THEN N("Slice", << left >> \o right.c) ELSE N("Slice", << left, right >>)
 
-RECURSIVE PExpr(_, _, _), PPrefix(_, _), PLoop(_, _, _, _), PArgs(_, _, _, _, _)
+\* precedences that depend on the repaired deviations (Python: comparisons < | < ^ < &)
+PCmp(fx)  == IF "bitcmp" \in fx THEN 110 ELSE P_CMP
+PBxor(fx) == IF "orxor" \in fx THEN 125 ELSE P_BXOR
+\* minus: the code negates the parsed operand with Python's own unary minus; repaired, a tuple
+\* operand becomes an (ill-typed) product that raises when it is evaluated, as in Python
+NegF(fx, e) == IF "negtuple" \in fx /\ e.t \in {"Tup", "TupF", "ListF"}
+               THEN N("Product", << KI(-1), Unfinalize(e) >>) ELSE PyNeg(e)
+
+RECURSIVE PExpr(_, _, _, _), PPrefix(_, _, _), PLoop(_, _, _, _, _), PArgs(_, _, _, _, _, _)
 
 AtEnd(toks, pos) == pos > Len(toks)
 Tok(toks, pos) == IF pos > Len(toks) THEN "<end>" ELSE toks[pos]
 
 \* parse_expression
-PExpr(toks, pos, minp) ==
-    LET pre == PPrefix(toks, pos) IN
-    IF ~pre.ok THEN pre ELSE PLoop(toks, pre.pos, minp, pre.e)
+PExpr(fx, toks, pos, minp) ==
+    LET pre == PPrefix(fx, toks, pos) IN
+    IF ~pre.ok THEN pre ELSE PLoop(fx, toks, pre.pos, minp, pre.e)
 
 \* the postfix loop of parse_expression
-PLoop(toks, pos, minp, left) ==
-    IF AtEnd(toks, pos) THEN Ok(left, pos)            \* returned as is (still finalized)
+PLoop(fx, toks, pos, minp, left0) ==
+    IF AtEnd(toks, pos) THEN Ok(left0, pos)            \* returned as is (still finalized)
     ELSE
     LET tk == toks[pos]
+        \* an open comparison chain is closed by anything but another comparison operator
+        left == IF tk \in CmpToks THEN left0 ELSE ChainDone(left0)
         bin(cons(_, _), prec, rprec) ==     \* generic "left op right" with right parsed at rprec
             IF prec > minp THEN
-                LET r == PExpr(toks, pos + 1, rprec) IN
+                LET r == PExpr(fx, toks, pos + 1, rprec) IN
                 IF ~r.ok THEN r ELSE
-                LET built == cons(left, r.e) IN
-                IF IsRaise(built) THEN Fail(built.e) ELSE PLoop(toks, r.pos, minp, built)
+                LET built == cons(ChainDone(left), ChainDone(r.e)) IN
+                IF IsRaise(built) THEN Fail(built.e) ELSE PLoop(fx, toks, r.pos, minp, built)
             ELSE Ok(Unfinalize(left), pos)
         stop == Ok(Unfinalize(left), pos)
         SumCons(l, r) == IF l.t = "Sum" THEN N("Sum", l.c \o << r >>) ELSE N("Sum", << l, r >>)
-        SubCons(l, r) == LET nr == PyNeg(r) IN IF IsRaise(nr) THEN nr ELSE SumCons(l, nr)
+        SubCons(l, r) == LET nr == NegF(fx, r) IN IF IsRaise(nr) THEN nr ELSE SumCons(l, nr)
         MulCons(l, r) == IF l.t = "Product" THEN N("Product", l.c \o << r >>) ELSE N("Product", << l, r >>)
     IN
     CASE tk = "(" ->
             IF P_CALL > minp THEN
-                LET a == PArgs(toks, pos + 1, << >>, << >>, FALSE) IN
+                LET a == PArgs(fx, toks, pos + 1, << >>, << >>, FALSE) IN
                 IF ~a.ok THEN a
-                ELSE PLoop(toks, a.pos, minp,
+                ELSE PLoop(fx, toks, a.pos, minp,
                            IF Len(a.kw) > 0 THEN CallKw(left, a.args, a.kw) ELSE Call(left, a.args))
             ELSE stop
       [] tk = "[" ->
             IF P_CALL > minp THEN
                 IF AtEnd(toks, pos + 1) THEN ParseError
-                ELSE LET r == PExpr(toks, pos + 1, 0) IN
+                ELSE LET r == PExpr(fx, toks, pos + 1, 0) IN
                      IF ~r.ok THEN r
                      ELSE IF Tok(toks, r.pos) # "]" THEN ParseError
-                     ELSE PLoop(toks, r.pos + 1, minp, B("Sub", left, Unfinalize(r.e)))
+                     ELSE PLoop(fx, toks, r.pos + 1, minp, B("Sub", left, Unfinalize(r.e)))
             ELSE stop
       [] tk = "if" ->
             IF P_IF > minp THEN
                 IF AtEnd(toks, pos + 1) THEN ParseError
-                ELSE LET c == PExpr(toks, pos + 1, P_IF) IN
+                ELSE LET c == PExpr(fx, toks, pos + 1, P_IF) IN
                      IF ~c.ok THEN c
                      ELSE IF Tok(toks, c.pos) # "else" THEN ParseError
-                     ELSE LET el == PExpr(toks, c.pos + 1, P_IF - 1) IN   \* ends at a comma or slice colon
+                     ELSE LET el == PExpr(fx, toks, c.pos + 1, P_IF - 1) IN   \* ends at a comma or slice colon
                           IF ~el.ok THEN el
-                          ELSE PLoop(toks, el.pos, minp, IfE(Unfinalize(c.e), left, Unfinalize(el.e)))
+                          ELSE PLoop(fx, toks, el.pos, minp, IfE(Unfinalize(c.e), left, Unfinalize(el.e)))
             ELSE stop
       [] tk = "." ->
             IF P_CALL > minp THEN
-                IF Tok(toks, pos + 1) \in Idents THEN PLoop(toks, pos + 2, minp, Look(left, toks[pos + 1]))
+                IF Tok(toks, pos + 1) \in Idents THEN PLoop(fx, toks, pos + 2, minp, Look(left, toks[pos + 1]))
                 ELSE ParseError
             ELSE stop
       [] tk = "+"  -> bin(SumCons, P_PLUS, P_PLUS)
       [] tk = "-"  -> bin(SubCons, P_PLUS, P_PLUS)
-      [] tk = "*"  -> bin(MulCons, P_TIMES, P_PLUS)          \* right operand at additive level (sic)
+      [] tk = "*"  -> bin(MulCons, P_TIMES, IF "mulrhs" \in fx THEN P_TIMES ELSE P_PLUS)   \* additive level (sic)
       [] tk = "//" -> bin(LAMBDA l, r : B("FloorDiv", l, r), P_TIMES, P_TIMES)
       [] tk = "/"  -> bin(LAMBDA l, r : B("Quotient", l, r), P_TIMES, P_TIMES)
       [] tk = "%"  -> bin(LAMBDA l, r : B("Remainder", l, r), P_TIMES, P_TIMES)
@@ -117,58 +155,75 @@ PLoop(toks, pos, minp, left) ==
       [] tk = "and" -> bin(LAMBDA l, r : N("LogAnd", << l, r >>), P_LAND, P_LAND)
       [] tk = "or"  -> bin(LAMBDA l, r : N("LogOr", << l, r >>), P_LOR, P_LOR)
       [] tk = "|"  -> bin(LAMBDA l, r : N("BitOr", << l, r >>), P_BOR, P_BOR)
-      [] tk = "^"  -> bin(LAMBDA l, r : N("BitXor", << l, r >>), P_BXOR, P_BXOR)
+      [] tk = "^"  -> bin(LAMBDA l, r : N("BitXor", << l, r >>), PBxor(fx), PBxor(fx))
       [] tk = "&"  -> bin(LAMBDA l, r : N("BitAnd", << l, r >>), P_BAND, P_BAND)
       [] tk = ">>" -> bin(LAMBDA l, r : B("RShift", l, r), P_SHIFT, P_SHIFT)
       [] tk = "<<" -> bin(LAMBDA l, r : B("LShift", l, r), P_SHIFT, P_SHIFT)
-      [] tk \in CmpToks -> bin(LAMBDA l, r : Cmp(l, tk, r), P_CMP, P_CMP)
+      [] tk \in CmpToks ->
+            IF "chain" \notin fx THEN bin(LAMBDA l, r : Cmp(l, tk, r), PCmp(fx), PCmp(fx))
+            ELSE IF PCmp(fx) > minp THEN
+                LET r == PExpr(fx, toks, pos + 1, PCmp(fx)) IN
+                IF ~r.ok THEN r
+                ELSE PLoop(fx, toks, r.pos, minp,
+                           IF left.t = "Chain"
+                           THEN [t |-> "Chain", c |-> Append(left.c, ChainDone(r.e)), ops |-> Append(left.ops, tk)]
+                           ELSE [t |-> "Chain", c |-> << left, ChainDone(r.e) >>, ops |-> << tk >>])
+            ELSE stop
       [] tk = ":" ->
             IF P_SLICE >= minp THEN
-                LET r == IF AtEnd(toks, pos + 1) THEN ParseError ELSE PExpr(toks, pos + 1, P_SLICE) IN
-                IF r.ok THEN PLoop(toks, r.pos, minp, JoinToSlice(left, Unfinalize(r.e)))
-                ELSE IF r.err = "ParseError" THEN PLoop(toks, pos + 1, minp, N("Slice", << left, NoneE >>))
+                LET r == IF AtEnd(toks, pos + 1) THEN ParseError ELSE PExpr(fx, toks, pos + 1, P_SLICE) IN
+                IF r.ok THEN PLoop(fx, toks, r.pos, minp, JoinToSlice(left, Unfinalize(r.e)))
+                ELSE IF r.err = "ParseError" THEN PLoop(fx, toks, pos + 1, minp, N("Slice", << left, NoneE >>))
                 ELSE r
             ELSE stop
       [] tk = "," ->
             IF P_COMMA > minp THEN
                 IF AtEnd(toks, pos + 1) \/ Tok(toks, pos + 1) = ")" THEN
-                    PLoop(toks, pos + 1, minp, IF IsOpenTup(left) THEN left ELSE N("Tup", << left >>))
-                ELSE LET r == PExpr(toks, pos + 1, P_COMMA) IN
+                    PLoop(fx, toks, pos + 1, minp, IF IsOpenTup(left) THEN left ELSE N("Tup", << left >>))
+                ELSE LET r == PExpr(fx, toks, pos + 1, P_COMMA) IN
                      IF ~r.ok THEN r
-                     ELSE PLoop(toks, r.pos, minp,
+                     ELSE PLoop(fx, toks, r.pos, minp,
                                 IF IsOpenTup(left) THEN N("Tup", left.c \o << r.e >>)
                                 ELSE N("Tup", << left, r.e >>))
             ELSE stop
       [] OTHER -> stop
 
 \* parse_prefix
-PPrefix(toks, pos) ==
+PPrefix(fx, toks, pos) ==
     IF AtEnd(toks, pos) THEN ParseError
     ELSE
     LET tk == toks[pos]
-        unary(cons(_)) == LET r == PExpr(toks, pos + 1, P_UNARY) IN
+        unaryAt(cons(_), prec) ==
+                       LET r == PExpr(fx, toks, pos + 1, prec) IN
+                       IF ~r.ok THEN r
+                       ELSE LET b == cons(Unfinalize(r.e)) IN
+                            IF IsRaise(b) THEN Fail(b.e) ELSE Ok(b, r.pos)
+        \* repaired: ** binds tighter than a prefix operator on its left (operand one level below **)
+        unary(cons(_)) == unaryAt(cons, IF "unarypow" \in fx THEN P_TIMES ELSE P_UNARY)
+        unaryOLD(cons(_)) == LET r == PExpr(fx, toks, pos + 1, P_UNARY) IN
                        IF ~r.ok THEN r
                        ELSE LET b == cons(Unfinalize(r.e)) IN
                             IF IsRaise(b) THEN Fail(b.e) ELSE Ok(b, r.pos)
     IN
     CASE tk = ":" ->
-            LET r == IF AtEnd(toks, pos + 1) THEN ParseError ELSE PExpr(toks, pos + 1, P_SLICE) IN
+            LET r == IF AtEnd(toks, pos + 1) THEN ParseError ELSE PExpr(fx, toks, pos + 1, P_SLICE) IN
             IF r.ok THEN Ok(JoinToSlice(NoneE, Unfinalize(r.e)), r.pos)
             ELSE IF r.err = "ParseError" THEN Ok(N("Slice", << NoneE >>), pos + 1)
             ELSE r
       [] tk = "+"   -> unary(LAMBDA x : x)
-      [] tk = "-"   -> unary(PyNeg)
-      [] tk = "not" -> unary(LAMBDA x : U("LogNot", x))
+      [] tk = "-"   -> unary(LAMBDA x : NegF(fx, x))
+      \* repaired: 'not' binds looser than comparisons, tighter than 'and'
+      [] tk = "not" -> unaryAt(LAMBDA x : U("LogNot", x), IF "notprec" \in fx THEN P_LAND ELSE P_UNARY)
       [] tk = "~"   -> unary(LAMBDA x : U("BitNot", x))
       [] tk = "(" ->
             IF Tok(toks, pos + 1) = ")" THEN Ok([t |-> "TupF", c |-> << >>], pos + 2)
-            ELSE LET r == PExpr(toks, pos + 1, 0) IN
+            ELSE LET r == PExpr(fx, toks, pos + 1, 0) IN
                  IF ~r.ok THEN r
                  ELSE IF Tok(toks, r.pos) # ")" THEN ParseError
-                 ELSE Ok(Finalize(r.e), r.pos + 1)
+                 ELSE Ok(Finalize(ChainDone(r.e)), r.pos + 1)
       [] tk = "[" ->
             IF Tok(toks, pos + 1) = "]" THEN Ok([t |-> "ListF", c |-> << >>], pos + 2)
-            ELSE LET r == PExpr(toks, pos + 1, 0) IN
+            ELSE LET r == PExpr(fx, toks, pos + 1, 0) IN
                  IF ~r.ok THEN r
                  ELSE IF Tok(toks, r.pos) # "]" THEN ParseError
                  ELSE Ok(ToList(r.e), r.pos + 1)
@@ -180,7 +235,7 @@ PPrefix(toks, pos) ==
       [] OTHER -> ParseError
 
 \* parse_arglist: returns [ok, args, kw, pos]
-PArgs(toks, pos, args, kw, commaAllowed) ==
+PArgs(fx, toks, pos, args, kw, commaAllowed) ==
     IF AtEnd(toks, pos) THEN ParseError
     ELSE
     LET sawComma == toks[pos] = ","
@@ -191,28 +246,33 @@ PArgs(toks, pos, args, kw, commaAllowed) ==
     ELSE IF toks[p1] = ")" THEN [ok |-> TRUE, args |-> args, kw |-> kw, pos |-> p1 + 1]
     ELSE IF ~sawComma /\ commaAllowed THEN ParseError
     ELSE IF toks[p1] \in Idents /\ Tok(toks, p1 + 1) = "=" THEN
-        LET r == PExpr(toks, p1 + 2, P_COMMA) IN
+        LET r == PExpr(fx, toks, p1 + 2, P_COMMA) IN
         IF ~r.ok THEN r
         ELSE LET others == SelectSeq(kw, LAMBDA q : q.name # toks[p1]) IN
              \* a dict: a repeated keyword overwrites, keeping its first position
-             PArgs(toks, r.pos, args,
+             PArgs(fx, toks, r.pos, args,
                    IF Len(others) = Len(kw) THEN Append(kw, KwArg(toks[p1], Unfinalize(r.e)))
                    ELSE [i \in 1..Len(kw) |-> IF kw[i].name = toks[p1]
                                                THEN KwArg(toks[p1], Unfinalize(r.e)) ELSE kw[i]],
                    TRUE)
     ELSE IF Len(kw) > 0 THEN ParseError
-    ELSE LET r == PExpr(toks, p1, P_COMMA) IN
-         IF ~r.ok THEN r ELSE PArgs(toks, r.pos, Append(args, Unfinalize(r.e)), kw, TRUE)
+    ELSE LET r == PExpr(fx, toks, p1, P_COMMA) IN
+         IF ~r.ok THEN r ELSE PArgs(fx, toks, r.pos, Append(args, Unfinalize(r.e)), kw, TRUE)
 
 \* Parser.__call__: the whole input must be consumed
 RECURSIVE Cleanup(_)
 Cleanup(e) ==       \* what Python's == / the serialiser see: finalized containers are containers
-    LET e1 == IF e.t = "TupF" THEN [t |-> "Tup", c |-> e.c]
-              ELSE IF e.t = "ListF" THEN [t |-> "List", c |-> e.c] ELSE e
+    LET e0 == ChainDone(e)
+        e1 == IF e0.t = "TupF" THEN [t |-> "Tup", c |-> e0.c]
+              ELSE IF e0.t = "ListF" THEN [t |-> "List", c |-> e0.c] ELSE e0
     IN WithKids(e1, [i \in 1..Len(Kids(e1)) |-> Cleanup(Kids(e1)[i])])
-Parse(toks) ==
-    LET r == PExpr(toks, 1, 0) IN
+ParseF(fx, toks) ==
+    LET r == PExpr(fx, toks, 1, 0) IN
     IF ~r.ok THEN r
     ELSE IF ~AtEnd(toks, r.pos) THEN ParseError
     ELSE Ok(Cleanup(r.e), r.pos)
+Parse(toks) == ParseF({}, toks)        \* the parser as the code has it
+ParseRepaired(toks) == ParseF(Deviations, toks)
+\* the deviations whose repair alone changes how this string is read
+ActiveDevs(toks) == SelectSeq(DevSeq, LAMBDA d : ParseF({d}, toks) # ParseF({}, toks))
 =============================================================================
